@@ -13,7 +13,7 @@ CHECK = {
                             "scenario_CheckupGreaterThanRate", "scenario_RateMonitoring", "scenario_RateMonitoring_slow_source",
                             "scenario_CheckupEqualToRate_slow_source", "scenario_CheckupGreaterThanRate_slow_source", "scenario_OnlineAverage_concurrent_reset",
                             "scenario_OnlineVariance_concurrent_reset", "readers_1", "readers_8",
-                            "producers_4", "with_injected_yields", "no_injected_yields"],
+                            "producers_4", "optional_constructed_with_value", "optional_constructed_empty", "with_injected_yields", "no_injected_yields"],
     "required_counters": ["scenario_runs_with_overlap", "reader_observed_value_changes", "hook.Checkup::setDiagnostic_",
                           "hook.CheckupRate::evaluate", "hook.CheckupRate::heartBeatCallback",
                           "ops.SharedOptionalVariable::consume(non-empty)", "ops.CheckupEqualToRate::heartBeatCallback(timeout)"],
